@@ -34,21 +34,18 @@ def explicit_variant(p):
     return q
 
 
-def collect(tier, tmp, progs, types, mode="ser", rich=True, nfuel=0, ndfuel=0, maxbytes=0, invariants=(), properties=(), tag="mc"):
-    """Model run (checked, all workers) + emission run (1 worker per shard).  Returns (records, stats)."""
-    chk = tlc_proto(tmp, progs, types, cfg_text(mode, nfuel=nfuel, ndfuel=ndfuel, rich=rich, maxbytes=maxbytes,
-                                                invariants=invariants, properties=properties),
-                    shards=1, workers=8, tag=tag + "chk", coverage=True)
-    for r in chk:
-        require(r.ok, f"model-level failure in MC_Proto/{mode} (spec problem, not a code verdict):\n" + r.tail(60))
-    emi = tlc_proto(tmp, progs, types, cfg_text(mode, nfuel=nfuel, ndfuel=ndfuel, rich=rich, maxbytes=maxbytes, emit=True),
-                    shards=8, workers=1, tag=tag + "emit")
+def collect(tier, tmp, progs, types, mode="ser", rich=True, nfuel=0, ndfuel=0, maxbytes=0, invariants=(), properties=(), tag="mc", light=False, withsize=True, emit_withsize=True, hdepth=2):
+    """One TLC run per shard: invariants/properties checked, per-action coverage collected, finished behaviours emitted.
+    (single-line PrintT output is atomic also with several workers).  Returns (records, stats)."""
+    runs = tlc_proto(tmp, progs, types, cfg_text(mode, nfuel=nfuel, ndfuel=ndfuel, rich=rich, maxbytes=maxbytes, light=light, withsize=emit_withsize, hdepth=hdepth,
+                                                 invariants=invariants, properties=properties, emit=True),
+                     shards=4, workers=4, tag=tag, coverage=True)
     recs = []
-    for r in emi:
-        require(r.ok, "emission run failed:\n" + r.tail(40))
+    for r in runs:
+        require(r.ok, f"model-level failure in MC_Proto/{mode} (spec problem, not a code verdict):\n" + r.tail(60))
         recs += [p for p in r.printed if isinstance(p, dict) and "kind" in p]
-    stats = {"states": sum(r.distinct for r in chk), "transitions": sum(r.generated for r in chk),
-             "action_counts": {a: sum(r.coverage.get(a, 0) for r in chk) for a in ("SerStep", "SerReturn", "SerUnwind", "ToDeser", "DeStep", "DeReturn", "DeUnwind")}}
+    stats = {"states": sum(r.distinct for r in runs), "transitions": sum(r.generated for r in runs),
+             "action_counts": {a: sum(r.coverage.get(a, 0) for r in runs) for a in ("SerStep", "SerReturn", "SerUnwind", "ToDeser", "DeStep", "DeReturn", "DeUnwind")}}
     return recs, stats
 
 
